@@ -6,6 +6,7 @@ package main
 
 import (
 	"go/token"
+	"go/types"
 	"strings"
 
 	"golang.org/x/tools/go/ssa"
@@ -33,10 +34,33 @@ func (x *c02pubs) validGlob(v ssa.Value, at *ssa.BasicBlock, depth int, seen map
 		})
 	}
 	switch y := v.(type) {
+	case *ssa.TypeAssert:
+		// v.(glob.Glob) of what a cache yielded
+		if !y.CommaOk {
+			return x.cachedGlob(y.X, at, depth, seen)
+		}
+		return false
+	case *ssa.Lookup:
+		// g := cache[p]: nil for a pattern that is not in the cache
+		if y.CommaOk || !knownNonNil(at, sameVal(v)) {
+			return false
+		}
+		return x.cachedGlob(y, at, depth, seen)
 	case *ssa.Extract:
+		if lk, isLk := y.Tuple.(*ssa.Lookup); isLk {
+			// g, ok := cache[p], used where ok holds
+			return y.Index == 0 && lk.CommaOk && c02knownTrue(at, lk, 1) && x.cachedGlob(lk, at, depth, seen)
+		}
+		if ta, isTA := y.Tuple.(*ssa.TypeAssert); isTA {
+			// g, _ := v.(glob.Glob): every value the cache holds is a glob, so the assertion succeeds when the load did
+			return y.Index == 0 && x.cachedGlob(ta.X, at, depth, seen)
+		}
 		call, isCall := y.Tuple.(*ssa.Call)
 		if !isCall || y.Index != 0 || call.Call.Signature().Results().Len() != 2 {
 			return false
+		}
+		if n := calleeName(&call.Call); n == "(*sync.Map).Load" || n == "(*sync.Map).LoadOrStore" || n == "(*sync.Map).Swap" {
+			return x.cachedGlob(y, at, depth, seen)
 		}
 		if c02isGlobCompile(call) {
 			return errNilAt(call, at)
@@ -56,8 +80,10 @@ func (x *c02pubs) validGlob(v ssa.Value, at *ssa.BasicBlock, depth int, seen map
 			if !isR || len(r.Results) != 2 {
 				return
 			}
-			if inner, isE := r.Results[0].(*ssa.Extract); isE {
-				if e1, isE1 := r.Results[1].(*ssa.Extract); isE1 && e1.Tuple == inner.Tuple && inner.Index == 0 && e1.Index == 1 {
+			// a wrapper with a deferred call returns through result slots: what the return block stored there
+			res0, res1 := c02slotValue(r.Results[0], r), c02slotValue(r.Results[1], r)
+			if inner, isE := res0.(*ssa.Extract); isE {
+				if e1, isE1 := res1.(*ssa.Extract); isE1 && e1.Tuple == inner.Tuple && inner.Index == 0 && e1.Index == 1 {
 					// return glob.Compile(p): the caller's err == nil test is the test of this call
 					if ic, isC := inner.Tuple.(*ssa.Call); isC && c02isGlobCompile(ic) {
 						n++
@@ -65,11 +91,11 @@ func (x *c02pubs) validGlob(v ssa.Value, at *ssa.BasicBlock, depth int, seen map
 					}
 				}
 			}
-			if !c02defNil(r.Results[1], r.Block(), map[ssa.Value]bool{}) {
+			if !c02defNil(res1, r.Block(), map[ssa.Value]bool{}) {
 				return // error return: the caller does not use the glob
 			}
 			n++
-			if !x.validGlob(r.Results[0], r.Block(), depth+1, seen) {
+			if !x.validGlob(res0, r.Block(), depth+1, seen) {
 				ok = false
 			}
 		})
@@ -123,6 +149,129 @@ func (x *c02pubs) validGlob(v ssa.Value, at *ssa.BasicBlock, depth int, seen map
 		}
 	}
 	return false
+}
+
+// c02slotValue: v as seen by instruction at - for a load of a local slot (a result variable of a function with a
+// deferred call) the value the same block stored into the slot last before the load; v itself otherwise.
+func c02slotValue(v ssa.Value, at ssa.Instruction) ssa.Value {
+	u, ok := v.(*ssa.UnOp)
+	if !ok || u.Op != token.MUL || u.Block() != at.Block() {
+		return v
+	}
+	a, isAlloc := u.X.(*ssa.Alloc)
+	if !isAlloc {
+		return v
+	}
+	for k := instrIndex(u) - 1; k >= 0; k-- {
+		if st, isSt := u.Block().Instrs[k].(*ssa.Store); isSt && st.Addr == ssa.Value(a) {
+			return st.Val
+		}
+	}
+	return v
+}
+
+// c02knownTrue: component idx of the tuple (the ok of a comma-ok form) is known to be true at block at.
+func c02knownTrue(at *ssa.BasicBlock, tuple ssa.Value, idx int) bool {
+	if at == nil {
+		return false
+	}
+	for _, f := range factsAt(at) {
+		if e, ok := f.Cond.(*ssa.Extract); ok && f.Truth && e.Tuple == tuple && e.Index == idx {
+			return true
+		}
+	}
+	return false
+}
+
+// cachedGlob: v was taken out of a memo of compiled patterns - a map (v is the Lookup) or a sync.Map (v is the value
+// component of Load/LoadOrStore/Swap, used where the load is known to have found something) - and everything that is
+// ever put into that memo is the result of a successful glob.Compile. The memo is identified by its memory path
+// (package-level variable, field of one) and its writers are searched in the whole package; a local map by its value
+// in the same function.
+func (x *c02pubs) cachedGlob(v ssa.Value, at *ssa.BasicBlock, depth int, seen map[ssa.Value]bool) bool {
+	if depth > 4 {
+		return false
+	}
+	var cache ssa.Value
+	syncMap := false
+	switch y := v.(type) {
+	case *ssa.Lookup:
+		if _, isMap := y.X.Type().Underlying().(*types.Map); !isMap {
+			return false
+		}
+		cache = y.X
+	case *ssa.Extract:
+		call, ok := y.Tuple.(*ssa.Call)
+		if !ok || y.Index != 0 || len(call.Call.Args) == 0 {
+			return false
+		}
+		switch calleeName(&call.Call) {
+		case "(*sync.Map).Load":
+			if !c02knownTrue(at, call, 1) {
+				return false
+			}
+		case "(*sync.Map).LoadOrStore":
+			// either what was stored before or the value handed in, which is judged with the other stores below
+		default:
+			return false
+		}
+		cache, syncMap = call.Call.Args[0], true
+	default:
+		return false
+	}
+	global := c02globalRoot(cache, 0) != nil
+	path := accessPath(cache)
+	same := func(o ssa.Value, in *ssa.Function) bool {
+		if o == cache {
+			return true
+		}
+		if !global {
+			return false // a local memo: same value only
+		}
+		return c02globalRoot(o, 0) != nil && accessPath(o) == path
+	}
+	ok, n := true, 0
+	var fns []*ssa.Function
+	if global {
+		for _, f := range x.c.AllFns {
+			if at != nil && rootPkg(f) == rootPkg(at.Parent()) {
+				fns = append(fns, f)
+			}
+		}
+	} else if at != nil {
+		fns = withAnon(at.Parent())
+	}
+	eachInstrOf(fns, func(f *ssa.Function, i ssa.Instruction) {
+		var stored ssa.Value
+		switch w := i.(type) {
+		case *ssa.MapUpdate:
+			if !syncMap && same(w.Map, f) {
+				stored = w.Value
+			}
+		case *ssa.Call:
+			if !syncMap || len(w.Call.Args) < 3 || !same(w.Call.Args[0], f) {
+				return
+			}
+			switch calleeName(&w.Call) {
+			case "(*sync.Map).Store", "(*sync.Map).LoadOrStore", "(*sync.Map).Swap":
+				stored = w.Call.Args[2]
+			case "(*sync.Map).CompareAndSwap":
+				if len(w.Call.Args) >= 4 {
+					stored = w.Call.Args[3]
+				}
+			}
+		}
+		if stored == nil {
+			return
+		}
+		n++
+		// judged on its own at the place of the store (the same value may be valid where it is returned, after the
+		// error test, and not yet where it is stored); the depth bound ends a memo that is filled from itself
+		if !x.validGlob(stored, i.Block(), depth+1, map[ssa.Value]bool{}) {
+			ok = false
+		}
+	})
+	return ok && n > 0
 }
 
 func runC02P9(c *Ctx, x *c02pubs) {
